@@ -26,6 +26,7 @@ def run(ctx):
     sweep.no_input_mutation_rule(ctx, "C03.R6")
     sweep.settings_construction_rule(ctx, "C03.R7")
     sweep.df_single_output_rule(ctx, "C03.R8")
+    sweep.combine_options_rule(ctx, "C03.R9")
     prog = ctx.prog
     names = [CR + "." + n for n in ("combo_runner_to_ds", "results_to_ds", "results_to_df", "multi_concat", "get_ndim_first", "combo_runner_core")]
     names += [PREP + "." + n for n in ("parse_var_names", "parse_var_dims", "parse_combo_results", "dictify", "_str_2_tuple")]
